@@ -1,275 +1,16 @@
 import G3D.Props.C04
+import G3D.Proofs.TypedHandlers
 
-/-! # Result typing of `intersection` on the model — for ALL inputs (no well-formedness assumed)
+/-! # Result typing of `intersection` against the EXTRACTED documentation table, through the generated dispatcher
 
-    Every handler of calc/intersection.py, whenever it returns a value at all, returns an object whose
-    constructor is one of the result types that docs/source/example_operation.rst documents for the
-    operand types.  The statements are about the handlers as modelled (`interFlat`, the body handlers)
-    and about `inter`, the dispatcher generated from the current source; the documented lists are
-    the EXTRACTED table `Extracted.docRows` read through `Props.C04.docFor`. -/
+    `Proofs/TypedHandlers.lean` types every handler as modelled; here the lists are compared with
+    `Extracted.docRows` (read through `Props.C04.docFor`) and the statements are lifted to `inter`, the dispatcher
+    generated from the current source. -/
 namespace G3D
 open G3D.Extracted G3D.Dispatch
-
-/-- result type of a flat result -/
-def flatResTy : Option Geo → ResTy
-  | none => .none
-  | some (.point _) => .point
-  | some (.line _) => .line
-  | some (.plane _) => .plane
-  | some (.seg _) => .seg
-  | some (.halfline _) => .halfline
-
-/-- the documented result types for a pair of flat operands (symmetric in the operands) -/
-def allowed : Geo → Geo → List ResTy
-  | .point _, _ => [.none, .point]
-  | _, .point _ => [.none, .point]
-  | .line _, .line _ => [.none, .point, .line]
-  | .line _, .plane _ => [.none, .point, .line]
-  | .plane _, .line _ => [.none, .point, .line]
-  | .line _, .seg _ => [.none, .point, .seg]
-  | .seg _, .line _ => [.none, .point, .seg]
-  | .plane _, .seg _ => [.none, .point, .seg]
-  | .seg _, .plane _ => [.none, .point, .seg]
-  | .seg _, .seg _ => [.none, .point, .seg]
-  | .seg _, .halfline _ => [.none, .point, .seg]
-  | .halfline _, .seg _ => [.none, .point, .seg]
-  | .line _, .halfline _ => [.none, .point, .halfline]
-  | .halfline _, .line _ => [.none, .point, .halfline]
-  | .plane _, .halfline _ => [.none, .point, .halfline]
-  | .halfline _, .plane _ => [.none, .point, .halfline]
-  | .plane _, .plane _ => [.none, .line, .plane]
-  | .halfline _, .halfline _ => [.none, .point, .seg, .halfline]
-
-theorem allowed_symm (a b : Geo) : allowed a b = allowed b a := by
-  cases a <;> cases b <;> rfl
-
-/-- every value a flat computation returns has its type in `l` -/
-def FTyIn (l : List ResTy) (r : Res) : Prop := ∀ o, r = .ok o → flatResTy o ∈ l
-
-theorem FTyIn.mono {l l' : List ResTy} {r : Res} (h : FTyIn l r) (hs : l ⊆ l') : FTyIn l' r :=
-  fun o ho => hs (h o ho)
-
-theorem FTyIn.error (l : List ResTy) (e : IErr) : FTyIn l (.error e) := fun _ h => by cases h
-
-theorem FTyIn.ok {l : List ResTy} {o : Option Geo} (h : flatResTy o ∈ l) : FTyIn l (.ok o) :=
-  fun o' h' => by cases h'; exact h
-
-/-- a membership test on a point: `None` or the point -/
-theorem pointIf_typed (c : Bool) (p : V3) : FTyIn [.none, .point] (.ok (if c then some (.point p) else none)) := by
-  apply FTyIn.ok; cases c <;> simp [flatResTy]
-
-theorem interPointPoint_typed (p q : V3) : FTyIn [.none, .point] (interPointPoint p q) := by
-  unfold interPointPoint; apply FTyIn.ok; split <;> simp [flatResTy]
-theorem interPointLine_typed (p : V3) (l : Line) : FTyIn [.none, .point] (interPointLine p l) := pointIf_typed _ p
-theorem interPointPlane_typed (p : V3) (pl : Plane) : FTyIn [.none, .point] (interPointPlane p pl) := pointIf_typed _ p
-theorem interPointSeg_typed (p : V3) (s : Seg) : FTyIn [.none, .point] (interPointSeg p s) := pointIf_typed _ p
-theorem interPointHalfLine_typed (p : V3) (h : HalfLine) : FTyIn [.none, .point] (interPointHalfLine p h) :=
-  pointIf_typed _ p
-
-/-- shape of `inter_line_line`: `None`, a Point, or the first line itself -/
-theorem interLineLine_cases (l1 l2 : Line) (o : Option Geo) (h : interLineLine l1 l2 = .ok o) :
-    o = none ∨ (∃ q, o = some (.point q)) ∨ o = some (.line l1) := by
-  unfold interLineLine at h
-  by_cases heq : l1.eqv l2 = true
-  · rw [if_pos heq] at h; cases h; exact Or.inr (Or.inr rfl)
-  · rw [if_neg heq] at h
-    simp only at h
-    split at h
-    · cases h; exact Or.inl rfl
-    · split at h
-      · cases h; exact Or.inr (Or.inl ⟨_, rfl⟩)
-      · cases h
-
-/-- shape of `inter_line_plane`: `None`, a Point, or the line itself -/
-theorem interLinePlane_cases (l : Line) (p : Plane) (o : Option Geo) (h : interLinePlane l p = .ok o) :
-    o = none ∨ (∃ q, o = some (.point q)) ∨ o = some (.line l) := by
-  unfold interLinePlane at h
-  by_cases hc : p.containsLine l = true
-  · rw [if_pos hc] at h; cases h; exact Or.inr (Or.inr rfl)
-  · rw [if_neg hc] at h
-    by_cases ho : V3.orthogonal l.dv p.n = true
-    · rw [if_pos ho] at h; cases h; exact Or.inl rfl
-    · rw [if_neg ho] at h; cases h; exact Or.inr (Or.inl ⟨_, rfl⟩)
-
-/-- shape of `inter_plane_plane`: `None`, a Line, or the first plane itself -/
-theorem interPlanePlane_cases (a b : Plane) (o : Option Geo) (h : interPlanePlane a b = .ok o) :
-    o = none ∨ (∃ L, o = some (.line L)) ∨ o = some (.plane a) := by
-  unfold interPlanePlane at h
-  by_cases heq : a.eqv b = true
-  · rw [if_pos heq] at h; cases h; exact Or.inr (Or.inr rfl)
-  · rw [if_neg heq] at h
-    by_cases hpar : V3.parallel a.n b.n = true
-    · rw [if_pos hpar] at h; cases h; exact Or.inl rfl
-    · rw [if_neg hpar] at h
-      simp only at h
-      split at h
-      · cases h; exact Or.inr (Or.inl ⟨_, rfl⟩)
-      · cases h
-
-theorem interLineLine_typed (l1 l2 : Line) : FTyIn [.none, .point, .line] (interLineLine l1 l2) := by
-  intro o h
-  rcases interLineLine_cases l1 l2 o h with rfl | ⟨q, rfl⟩ | rfl <;> simp [flatResTy]
-
-theorem interLinePlane_typed (l : Line) (p : Plane) : FTyIn [.none, .point, .line] (interLinePlane l p) := by
-  intro o h
-  rcases interLinePlane_cases l p o h with rfl | ⟨q, rfl⟩ | rfl <;> simp [flatResTy]
-
-theorem interPlanePlane_typed (a b : Plane) : FTyIn [.none, .line, .plane] (interPlanePlane a b) := by
-  intro o h
-  rcases interPlanePlane_cases a b o h with rfl | ⟨q, rfl⟩ | rfl <;> simp [flatResTy]
-
-/-- the common pattern of the four carrier handlers: `None` ↦ `None`, a Point ↦ a membership test,
-    a Line ↦ the operand itself -/
-theorem carrier_typed (r : Res) (whole : Geo) (withPoint : V3 → Res) (t : ResTy)
-    (ht : flatResTy (some whole) = t) (hp : ∀ q, FTyIn [.none, .point] (withPoint q)) :
-    FTyIn [.none, .point, t]
-      (match r with
-        | .ok none => .ok none
-        | .ok (some (.line _)) => .ok (some whole)
-        | .ok (some (.point q)) => withPoint q
-        | .ok _ => .error .bug
-        | .error e => .error e) := by
-  split
-  · exact FTyIn.ok (by simp [flatResTy])
-  · exact FTyIn.ok (by simp [ht])
-  · exact (hp _).mono (by simp)
-  · exact FTyIn.error _ _
-  · exact FTyIn.error _ _
-
-theorem interLineSeg_typed (l : Line) (s : Seg) : FTyIn [.none, .point, .seg] (interLineSeg l s) := by
-  unfold interLineSeg
-  exact carrier_typed _ (.seg s) (fun q => interPointSeg q s) .seg rfl (fun q => interPointSeg_typed q s)
-
-theorem interLineHalfLine_typed (l : Line) (h : HalfLine) :
-    FTyIn [.none, .point, .halfline] (interLineHalfLine l h) := by
-  unfold interLineHalfLine
-  exact carrier_typed _ (.halfline h) (fun q => interPointHalfLine q h) .halfline rfl
-    (fun q => interPointHalfLine_typed q h)
-
-theorem interPlaneSeg_typed (a : Plane) (s : Seg) : FTyIn [.none, .point, .seg] (interPlaneSeg a s) := by
-  unfold interPlaneSeg
-  intro o h
-  split at h
-  · cases h; simp [flatResTy]
-  · exact (interPointSeg_typed _ s).mono (by simp) o h
-  · cases h; simp [flatResTy]
-  · cases h
-  · cases h
-
-theorem interPlaneHalfLine_typed (a : Plane) (h : HalfLine) :
-    FTyIn [.none, .point, .halfline] (interPlaneHalfLine a h) := by
-  unfold interPlaneHalfLine
-  intro o ho
-  split at ho
-  · cases ho; simp [flatResTy]
-  · exact (interPointHalfLine_typed _ h).mono (by simp) o ho
-  · cases ho; simp [flatResTy]
-  · cases ho
-  · cases ho
-
-/-- 0 / 1 / 2 collected points: `None`, a Point or a Segment (3 or more: "Bug detected") -/
-theorem ofPointSet_typed (ps : List V3) : FTyIn [.none, .point, .seg] (ofPointSet ps) := by
-  intro o h
-  match ps, h with
-  | [], h => cases h; simp [flatResTy]
-  | [p], h => cases h; simp [flatResTy]
-  | [p, q], h =>
-    simp only [ofPointSet, mkSeg] at h
-    by_cases hpq : p = q
-    · rw [if_pos hpq] at h; cases h
-    · rw [if_neg hpq] at h; cases h; simp [flatResTy]
-  | _ :: _ :: _ :: _, h => cases h
-
-/-- the non-collinear branch shared by Segment×Segment, Segment×HalfLine, HalfLine×HalfLine -/
-theorem crossing_typed (r : Res) (c : V3 → Bool) :
-    FTyIn [.none, .point]
-      (match r with
-        | .ok none => .ok none
-        | .ok (some (.point q)) => .ok (if c q then some (.point q) else none)
-        | .ok _ => .error .bug
-        | .error e => .error e) := by
-  split
-  · exact FTyIn.ok (by simp [flatResTy])
-  · exact pointIf_typed _ _
-  · exact FTyIn.error _ _
-  · exact FTyIn.error _ _
-
-theorem interSegSeg_typed (a b : Seg) : FTyIn [.none, .point, .seg] (interSegSeg a b) := by
-  unfold interSegSeg
-  split
-  · exact ofPointSet_typed _
-  · exact (crossing_typed _ (fun q => a.contains q && b.contains q)).mono (by simp)
-
-theorem interSegHalfLine_typed (a : Seg) (b : HalfLine) : FTyIn [.none, .point, .seg] (interSegHalfLine a b) := by
-  unfold interSegHalfLine
-  split
-  · exact ofPointSet_typed _
-  · exact (crossing_typed _ (fun q => a.contains q && b.contains q)).mono (by simp)
-
-theorem interHalfLineHalfLine_typed (a b : HalfLine) :
-    FTyIn [.none, .point, .seg, .halfline] (interHalfLineHalfLine a b) := by
-  unfold interHalfLineHalfLine
-  split
-  · split
-    · exact FTyIn.ok (by simp [flatResTy])
-    · split
-      · exact FTyIn.ok (by simp [flatResTy])
-      · exact (ofPointSet_typed _).mono (by simp)
-  · exact (crossing_typed _ (fun q => a.contains q && b.contains q)).mono (by simp)
-
-/-- **result typing of the 15 flat handlers, all inputs**: whenever `intersection(a, b)` of two flat
-    primitives returns, the result is `None` or an object of a type documented for the operand types
-    (no assumption on the operands: degenerate lines, zero normals, … included). -/
-theorem interFlat_typed (a b : Geo) (o : Option Geo) (h : interFlat a b = .ok o) : flatResTy o ∈ allowed a b := by
-  cases a with
-  | point p => cases b with
-    | point q => exact interPointPoint_typed p q o h
-    | line l => exact interPointLine_typed p l o h
-    | plane pl => exact interPointPlane_typed p pl o h
-    | seg s => exact interPointSeg_typed p s o h
-    | halfline hl => exact interPointHalfLine_typed p hl o h
-  | line l => cases b with
-    | point q => exact interPointLine_typed q l o h
-    | line l2 => exact interLineLine_typed l l2 o h
-    | plane pl => exact interLinePlane_typed l pl o h
-    | seg s => exact interLineSeg_typed l s o h
-    | halfline hl => exact interLineHalfLine_typed l hl o h
-  | plane pl => cases b with
-    | point q => exact interPointPlane_typed q pl o h
-    | line l => exact interLinePlane_typed l pl o h
-    | plane pl2 => exact interPlanePlane_typed pl pl2 o h
-    | seg s => exact interPlaneSeg_typed pl s o h
-    | halfline hl => exact interPlaneHalfLine_typed pl hl o h
-  | seg s => cases b with
-    | point q => exact interPointSeg_typed q s o h
-    | line l => exact interLineSeg_typed l s o h
-    | plane pl => exact interPlaneSeg_typed pl s o h
-    | seg s2 => exact interSegSeg_typed s s2 o h
-    | halfline hl => exact interSegHalfLine_typed s hl o h
-  | halfline hl => cases b with
-    | point q => exact interPointHalfLine_typed q hl o h
-    | line l => exact interLineHalfLine_typed l hl o h
-    | plane pl => exact interPlaneHalfLine_typed pl hl o h
-    | seg s => exact interSegHalfLine_typed s hl o h
-    | halfline h2 => exact interHalfLineHalfLine_typed hl h2 o h
-#print axioms interFlat_typed
+open G3D.Props.C04 (docFor)
 
 /-! ## the same against the EXTRACTED documentation table, through the generated dispatcher -/
-open G3D.Props.C04 (docFor resTyOf)
-
-theorem resTyOf_flat (o : Option Geo) : resTyOf (o.map Obj.flat) = flatResTy o := by
-  cases o with
-  | none => rfl
-  | some g => cases g <;> rfl
-
-theorem liftFlat_ok (r : Res) (o : Option Obj) (h : liftFlat r = .ok o) :
-    ∃ o', r = .ok o' ∧ o = o'.map Obj.flat := by
-  unfold liftFlat at h
-  split at h
-  · cases h; exact ⟨none, rfl, rfl⟩
-  · cases h; exact ⟨some _, rfl, rfl⟩
-  all_goals cases h
-
 /-- `allowed` IS the documented row of the extracted table -/
 theorem docFor_flat (a b : Geo) : docFor (tyOf (.flat a)) (tyOf (.flat b)) = some (allowed a b) := by
   cases a <;> cases b <;> rfl
@@ -284,98 +25,6 @@ theorem inter_flat_documented (a b : Geo) (o : Option Obj) (h : inter (.flat a) 
   exact ⟨allowed a b, docFor_flat a b, by rw [resTyOf_flat]; exact interFlat_typed a b o' ho'⟩
 #print axioms inter_flat_documented
 
-/-! ## body handlers -/
-
-/-- every value a computation returns has its type in `l` -/
-def TyIn (l : List ResTy) (r : ResB) : Prop := ∀ o, r = .ok o → resTyOf o ∈ l
-
-theorem TyIn.mono {l l' : List ResTy} {r : ResB} (h : TyIn l r) (hs : l ⊆ l') : TyIn l' r :=
-  fun o ho => hs (h o ho)
-
-theorem TyIn.error (l : List ResTy) (e : BErr) : TyIn l (.error e) := fun _ h => by cases h
-
-theorem TyIn.ok {l : List ResTy} {o : Option Obj} (h : resTyOf o ∈ l) : TyIn l (.ok o) :=
-  fun o' h' => by cases h'; exact h
-
-theorem TyIn.bind {α : Type} {l : List ResTy} (x : Except BErr α) (f : α → ResB) (hf : ∀ a, TyIn l (f a)) :
-    TyIn l (x >>= f) := by
-  cases x with
-  | error e => intro o h; cases h
-  | ok a => exact hf a
-
-theorem TyIn.liftFlat {l : List ResTy} {r : Res} (h : FTyIn l r) : TyIn l (liftFlat r) := by
-  intro o ho
-  obtain ⟨o', ho', rfl⟩ := liftFlat_ok r o ho
-  rw [resTyOf_flat]; exact h o' ho'
-
-theorem pt?_typed (p : V3) : TyIn [.none, .point] (pt? p) := TyIn.ok (by simp [resTyOf])
-theorem seg?_typed (s : Seg) : TyIn [.none, .point, .seg] (seg? s) := TyIn.ok (by simp [resTyOf])
-theorem none_typed {l : List ResTy} (h : ResTy.none ∈ l) : TyIn l (.ok none) := TyIn.ok h
-theorem ofPoints_typed (ps : List V3) : TyIn [.none, .point, .seg] (ofPoints ps) :=
-  TyIn.liftFlat (ofPointSet_typed ps)
-
-theorem interPointPolygon_typed (p : V3) (P : Polygon) : TyIn [.none, .point] (interPointPolygon p P) := by
-  unfold interPointPolygon
-  split
-  · exact pt?_typed p
-  · exact none_typed (by simp)
-
-theorem lineEdgesLoop_typed (l : Line) (ss : List Seg) (acc : List V3) :
-    TyIn [.none, .point, .seg] (lineEdgesLoop l ss acc) := by
-  induction ss generalizing acc with
-  | nil => exact ofPoints_typed acc
-  | cons s ss ih =>
-    unfold lineEdgesLoop
-    split
-    · exact ih _
-    · exact ih _
-    · exact seg?_typed _
-    · exact TyIn.error _ _
-    · exact TyIn.error _ _
-
-theorem interLinePolygon_typed (l : Line) (P : Polygon) : TyIn [.none, .point, .seg] (interLinePolygon l P) := by
-  unfold interLinePolygon
-  split
-  · exact none_typed (by simp)
-  · exact TyIn.bind _ _ (fun ss => lineEdgesLoop_typed l ss [])
-  · exact (interPointPolygon_typed _ P).mono (by simp)
-  · exact TyIn.error _ _
-
-theorem interPlanePolygon_typed (a : Plane) (P : Polygon) :
-    TyIn [.none, .point, .seg, .polygon] (interPlanePolygon a P) := by
-  unfold interPlanePolygon
-  split
-  · exact none_typed (by simp)
-  · exact TyIn.ok (by simp [resTyOf])
-  · exact (interLinePolygon_typed _ P).mono (by simp)
-  · exact TyIn.error _ _
-
-theorem interCarrierPolygon_typed (ln : Line) (mem : V3 → Bool) (withPoint : V3 → Res) (withSeg : Seg → Res)
-    (hp : ∀ q, FTyIn [.none, .point, .seg] (withPoint q)) (hs : ∀ s, FTyIn [.none, .point, .seg] (withSeg s))
-    (P : Polygon) : TyIn [.none, .point, .seg] (interCarrierPolygon ln mem withPoint withSeg P) := by
-  unfold interCarrierPolygon
-  split
-  · exact none_typed (by simp)
-  · split
-    · exact (pt?_typed _).mono (by simp)
-    · exact none_typed (by simp)
-  · split
-    · exact none_typed (by simp)
-    · exact TyIn.liftFlat (hp _)
-    · exact TyIn.liftFlat (hs _)
-    · exact TyIn.error _ _
-    · exact TyIn.error _ _
-  · exact TyIn.error _ _
-
-theorem interSegPolygon_typed (a : Seg) (P : Polygon) : TyIn [.none, .point, .seg] (interSegPolygon a P) :=
-  interCarrierPolygon_typed _ _ _ _ (fun q => (interPointSeg_typed q a).mono (by simp))
-    (fun s => interSegSeg_typed s a) P
-
-theorem interPolygonHalfLine_typed (P : Polygon) (h : HalfLine) :
-    TyIn [.none, .point, .seg] (interPolygonHalfLine P h) :=
-  interCarrierPolygon_typed _ _ _ _ (fun q => (interPointHalfLine_typed q h).mono (by simp))
-    (fun s => interSegHalfLine_typed s h) P
-
 /-- **documented result types, flat × ConvexPolygon, both argument orders, all inputs** -/
 theorem inter_flat_polygon_documented (f : Geo) (P : Polygon) (o : Option Obj)
     (h : inter (.flat f) (.polygon P) = .ok o ∨ inter (.polygon P) (.flat f) = .ok o) :
@@ -388,124 +37,6 @@ theorem inter_flat_polygon_documented (f : Geo) (P : Polygon) (o : Option Obj)
   | seg s => exact ⟨_, rfl, rfl, interSegPolygon_typed s P o (by rcases h with h | h <;> exact h)⟩
   | halfline hl => exact ⟨_, rfl, rfl, interPolygonHalfLine_typed P hl o (by rcases h with h | h <;> exact h)⟩
 #print axioms inter_flat_polygon_documented
-
-/-! ## the remaining handlers (ConvexPolyhedron operands, polygon × polygon) -/
-
-theorem interPointPolyhedron_typed (p : V3) (B : Polyhedron) : TyIn [.none, .point] (interPointPolyhedron p B) := by
-  unfold interPointPolyhedron
-  split
-  · exact pt?_typed p
-  · exact none_typed (by simp)
-
-theorem interLinePolyhedron_loop_typed (l : Line) (fs : List Polygon) (acc : List V3) :
-    TyIn [.none, .point, .seg] (interLinePolyhedron.loop l fs acc) := by
-  induction fs generalizing acc with
-  | nil =>
-    unfold interLinePolyhedron.loop
-    split
-    · exact none_typed (by simp)
-    · exact (pt?_typed _).mono (by simp)
-    · exact TyIn.bind _ _ (fun s => seg?_typed s)
-  | cons f fs ih =>
-    unfold interLinePolyhedron.loop
-    split
-    · exact seg?_typed _
-    · exact ih _
-    · exact ih _
-    · exact TyIn.error _ _
-    · exact TyIn.error _ _
-
-theorem interLinePolyhedron_typed (l : Line) (B : Polyhedron) :
-    TyIn [.none, .point, .seg] (interLinePolyhedron l B) :=
-  interLinePolyhedron_loop_typed l B.faces []
-
-theorem interPlanePolyhedron_typed (a : Plane) (B : Polyhedron) :
-    TyIn [.none, .point, .seg, .polygon] (interPlanePolyhedron a B) := by
-  unfold interPlanePolyhedron
-  split
-  · exact TyIn.ok (by simp [resTyOf])
-  · split
-    · exact TyIn.error _ _
-    · exact none_typed (by simp)
-    · exact (pt?_typed _).mono (by simp)
-    · exact TyIn.bind _ _ (fun s => (seg?_typed s).mono (by simp))
-    · exact TyIn.bind _ _ (fun P => TyIn.ok (by simp [resTyOf]))
-
-theorem interSegPolyhedron_typed (a : Seg) (B : Polyhedron) :
-    TyIn [.none, .point, .seg] (interSegPolyhedron a B) := by
-  unfold interSegPolyhedron
-  split
-  · exact seg?_typed a
-  · exact TyIn.bind _ _ (fun acc => ofPoints_typed _)
-
-theorem interPolyhedronHalfLine_typed (B : Polyhedron) (h : HalfLine) :
-    TyIn [.none, .point, .seg] (interPolyhedronHalfLine B h) := by
-  unfold interPolyhedronHalfLine
-  exact TyIn.bind _ _ (fun acc => ofPoints_typed _)
-
-/-- two results of `inter_line_convexpolygon` intersected with each other -/
-theorem interFlatPair_typed_of_PS (x y : Geo) (hx : resTyOf (some (.flat x)) ∈ [ResTy.none, .point, .seg])
-    (hy : resTyOf (some (.flat y)) ∈ [ResTy.none, .point, .seg]) :
-    TyIn [.none, .point, .seg] (interFlatPair x y) := by
-  apply TyIn.liftFlat
-  intro o ho
-  have := interFlat_typed x y o ho
-  cases x <;> cases y <;> simp [resTyOf] at hx hy <;> simp only [allowed] at this <;>
-    (revert this; cases flatResTy o <;> simp)
-
-theorem interPolygonPolygon_typed (a b : Polygon) :
-    TyIn [.none, .point, .seg, .polygon] (interPolygonPolygon a b) := by
-  unfold interPolygonPolygon
-  split
-  · exact none_typed (by simp)
-  · split
-    · exact none_typed (by simp)
-    · exact none_typed (by simp)
-    · rename_i x y hx hy
-      exact (interFlatPair_typed_of_PS x y (interLinePolygon_typed _ a _ hx) (interLinePolygon_typed _ b _ hy)).mono
-        (by simp)
-    · exact TyIn.error _ _
-    · exact TyIn.error _ _
-    · exact TyIn.error _ _
-  · split
-    · exact TyIn.error _ _
-    · refine TyIn.bind _ _ (fun sa => TyIn.bind _ _ (fun sb => TyIn.bind _ _ (fun acc => ?_)))
-      split
-      · exact TyIn.ok (by simp [resTyOf])
-      · exact (pt?_typed _).mono (by simp)
-      · exact TyIn.bind _ _ (fun s => (seg?_typed s).mono (by simp))
-      · refine TyIn.bind _ _ (fun c => ?_)
-        have hjp : ∀ _ : PUnit, TyIn [.none, .point, .seg, .polygon]
-            (liftC (Polygon.mk? acc) >>= fun P => pure (some (Obj.polygon P))) :=
-          fun _ => TyIn.bind _ _ (fun P => TyIn.ok (by simp [resTyOf]))
-        cases c
-        · exact hjp ()
-        · exact TyIn.bind _ _ hjp
-  · exact TyIn.error _ _
-
-theorem interPolygonPolyhedron_typed (B : Polyhedron) (P : Polygon) :
-    TyIn [.none, .point, .seg, .polygon] (interPolygonPolyhedron B P) := by
-  unfold interPolygonPolyhedron
-  split
-  · exact none_typed (by simp)
-  · exact (interPointPolygon_typed _ P).mono (by simp)
-  · exact (interSegPolygon_typed _ P).mono (by simp)
-  · exact interPolygonPolygon_typed _ P
-  · exact TyIn.error _ _
-  · exact TyIn.error _ _
-
-theorem interPolyhedronPolyhedron_typed (A B : Polyhedron) :
-    TyIn [.none, .point, .seg, .polygon, .polyhedron] (interPolyhedronPolyhedron A B) := by
-  unfold interPolyhedronPolyhedron
-  refine TyIn.bind _ _ (fun p1 => TyIn.bind _ _ (fun p2 => ?_))
-  split
-  · exact TyIn.bind _ _ (fun R => TyIn.ok (by simp [resTyOf]))
-  · exact TyIn.ok (by simp [resTyOf])
-  · exact TyIn.error _ _
-  · exact (seg?_typed _).mono (by simp)
-  · exact TyIn.error _ _
-  · exact (pt?_typed _).mono (by simp)
-  · exact TyIn.ok (by simp [resTyOf])
 
 /-- **C04, result typing, ALL 49 cells, all inputs**: whenever `intersection(a, b)` (the dispatcher
     generated from the current source, running the 28 modelled handlers) returns a value, the
